@@ -21,11 +21,12 @@ LIMIT = 3
 
 
 class Summary:
-    __slots__ = ("normal", "exc", "touches", "flow", "cfg")
+    __slots__ = ("normal", "exc", "touches", "flow", "cfg", "exc_cont")
 
     def __init__(self):
         self.normal: set = set()
         self.exc: set = set()
+        self.exc_cont = None  # generator-based context managers: deltas applied when the block ended with an exception
         self.touches = False  # does the function (transitively) push/pop at all
         self.flow = None
         self.cfg = None
@@ -125,11 +126,68 @@ class StackBalance:
             if t.kind == "func" and self._is_gen(t.target):
                 s = self.summary(t.target)
                 if s is not None and s.touches:
-                    raise AnalysisError(
-                        f"{fn.qualname}: `with {t.target.qualname}()` uses a generator-based context "
-                        "manager that pushes/pops the binding context; this shape is not modelled"
-                    )
+                    w = self.generator_cm_effects(t.target)
+                    if w is None:
+                        raise AnalysisError(
+                            f"{fn.qualname}: `with {t.target.qualname}()` uses a generator-based context "
+                            "manager that pushes/pops the binding context; this shape is not modelled"
+                        )
+                    return w
         return None
+
+    def generator_cm_effects(self, h: FuncInfo):
+        """`@contextmanager def h(): <enter>; yield; <exit>` split at its single yield: the part before the
+        yield is the enter effect; what runs when the block ends normally / with an exception is the exit
+        effect (Summary.normal / Summary.exc_cont)."""
+        from .model import walk_scope
+
+        if not any("contextmanager" in ast.unparse(d) for d in h.decorators):
+            return None
+        g = self.noret.cfg(h)
+        ynodes = [n for n in g.live_nodes() if n.ast is not None and n.kind in ("stmt", "return") and any(isinstance(x, (ast.Yield, ast.YieldFrom)) for x in ast.walk(n.ast))]
+        if len(ynodes) != 1:
+            return None
+        yn = ynodes[0]
+        eff = {}
+        for n in g.live_nodes():
+            lst = []
+            for c in (node_calls(n) if n.kind != "with_exit" else []):
+                ne, xe, touch = self.call_effect(h, c)
+                if touch:
+                    lst.append((ne, xe))
+            if n.kind in ("with_enter", "with_exit") and self.with_effects(h, n) is not None:
+                return None  # nested managers inside a manager: not modelled
+            eff[n.id] = lst
+        NORMAL = ("n", "t", "f", "loop", "done", "ret", "brk", "cont", "caught")
+
+        def transfer(node, st, kind, succ):
+            phase, at_yield, d = st
+            if abs(d) > LIMIT:
+                return ()
+            is_exc = kind not in NORMAL
+            if node.kind in ("unwind", "dispatch"):
+                return (st,)
+            outs = {d}
+            for ne, xe in eff.get(node.id, ()):
+                outs = {a + x for a in outs for x in (xe if is_exc else ne)}
+            if node is yn:
+                return tuple(("post-x" if is_exc else "post-n", a, a) for a in outs)
+            return tuple((phase, at_yield, a) for a in outs)
+
+        fl = Flow(g, ("pre", None, 0), transfer)
+        se, sx = Summary(), Summary()
+        se.touches = sx.touches = True
+        se.normal = {st[2] for st in fl.states_at(yn) if st[0] == "pre"}
+        se.exc = {st[2] for ex in (g.exit_e, g.exit_b) for st in fl.states_at(ex) if st[0] == "pre"} or {0}
+        if any(st[0] == "pre" for st in fl.states_at(g.exit)):
+            return None  # can finish without yielding
+        sx.normal = {st[2] - st[1] for st in fl.states_at(g.exit) if st[0] == "post-n"}
+        sx.exc = {st[2] - st[1] for ex in (g.exit_e, g.exit_b) for st in fl.states_at(ex) if st[0] == "post-n"}
+        # the block raised: whatever the generator does (re-raise or swallow), the delta applied on that path
+        sx.exc_cont = {st[2] - st[1] for ex in (g.exit, g.exit_e, g.exit_b) for st in fl.states_at(ex) if st[0] == "post-x"}
+        if not se.normal or not sx.normal or not sx.exc_cont:
+            return None
+        return (se, sx)
 
     def summary(self, f: FuncInfo) -> Optional[Summary]:
         q = f.qualname
@@ -212,9 +270,16 @@ class StackBalance:
                     exc_states = exc_states | {a + d for a in normal_states for d in (se.exc or {0})}
                     normal_states = {a + d for a in normal_states for d in (se.normal or {0})}
                 else:  # with_exit: the release happens on every out-edge
-                    all_d = (sx.normal or {0}) | (sx.exc or set())
-                    normal_states = {a + d for a in normal_states for d in (sx.normal or {0})}
-                    exc_states = {a + d for a in {st} for d in all_d}
+                    cont = node.info.get("cont")
+                    exc_cont = getattr(sx, "exc_cont", None)
+                    if exc_cont is not None and isinstance(cont, tuple) and cont and cont[0] == "exc":
+                        # generator-based manager, block ended with an exception: the post-yield exceptional part ran
+                        normal_states = {a + d for a in normal_states for d in exc_cont}
+                        exc_states = {a + d for a in {st} for d in exc_cont}
+                    else:
+                        all_d = (sx.normal or {0}) | (sx.exc or set())
+                        normal_states = {a + d for a in normal_states for d in (sx.normal or {0})}
+                        exc_states = {a + d for a in {st} for d in all_d}
             is_exc_edge = kind not in ("n", "t", "f", "loop", "done", "ret", "brk", "cont", "caught")
             if node.kind in ("unwind", "dispatch"):
                 return (st,)
